@@ -320,8 +320,10 @@ def prove(prop_file, extra_targets=()):
 def build_driver():
     """Extract the executable models and build ocaml/driver. Rebuilt when sources are newer."""
     exdir = os.path.join(COQ, "extracted")
+    os.makedirs(exdir, exist_ok=True)
     drv = os.path.join(VERIF, "ocaml", "_build", "driver")
-    srcs = [os.path.join(VERIF, "ocaml", "driver.ml"), os.path.join(COQ, "Extract.v")]
+    mls = ["conv.ml", "ext.ml", "driver.ml"]
+    srcs = [os.path.join(VERIF, "ocaml", f) for f in mls] + [os.path.join(COQ, "Extract.v")]
     ok, log = coq_make(["Extract.vo"])
     if not ok:
         raise BuildError("extraction failed (models do not compile):\n" + log[-3000:])
@@ -332,9 +334,10 @@ def build_driver():
     b = os.path.dirname(drv)
     for f in ("m4model.ml", "m4model.mli"):
         shutil.copy(os.path.join(exdir, f), b)
-    shutil.copy(os.path.join(VERIF, "ocaml", "driver.ml"), b)
-    p = run(["ocamlfind", "ocamlopt", "-O3", "-w", "-a", "-package", "str", "-linkpkg", "m4model.mli", "m4model.ml",
-             "driver.ml", "-o", "driver"], cwd=b)
+    for f in mls:
+        shutil.copy(os.path.join(VERIF, "ocaml", f), b)
+    p = run(["ocamlfind", "ocamlopt", "-O3", "-w", "-a", "-package", "str", "-linkpkg", "m4model.mli", "m4model.ml"]
+            + mls + ["-o", "driver"], cwd=b)
     if p.returncode != 0:
         raise BuildError("driver build failed:\n" + (p.stdout + p.stderr)[-3000:])
     return drv
